@@ -115,7 +115,7 @@ func (m *machine) call(x *wgen.CallE) Value {
 	f := x.Fn
 	args := make([]Value, len(x.Args))
 	for i, a := range x.Args {
-		args[i] = convertTo(m.eval(a), f.Params[i].T)
+		args[i] = m.convertTo(m.eval(a), f.Params[i].T)
 	}
 	m.depth++
 	if m.depth > 64 {
@@ -132,7 +132,7 @@ func (m *machine) call(x *wgen.CallE) Value {
 	m.fr = saved
 	m.depth--
 	if f.Ret != nil {
-		return convertTo(ret, f.Ret)
+		return m.convertTo(ret, f.Ret)
 	}
 	return Value{}
 }
@@ -156,7 +156,7 @@ func toI64(v Value) int64 {
 
 // convertTo applies WGSL's automatic conversions (abstract -> concrete) so
 // that the value has type t; concrete values of the right type pass through.
-func convertTo(v Value, t *wgen.Type) Value {
+func (m *machine) convertTo(v Value, t *wgen.Type) Value {
 	if v.T == nil || t == nil {
 		return v
 	}
@@ -173,8 +173,14 @@ func convertTo(v Value, t *wgen.Type) Value {
 		case wgen.AbsInt:
 			switch t.S {
 			case wgen.I32:
+				if v.I < math.MinInt32 || v.I > math.MaxInt32 {
+					m.ev.NotRepresentable++
+				}
 				return Value{T: t, B: uint32(int32(v.I))}
 			case wgen.U32:
+				if v.I < 0 || v.I > math.MaxUint32 {
+					m.ev.NotRepresentable++
+				}
 				return Value{T: t, B: uint32(v.I)}
 			case wgen.F32:
 				return Value{T: t, B: math.Float32bits(float32(v.I))}
@@ -183,7 +189,11 @@ func convertTo(v Value, t *wgen.Type) Value {
 			}
 		case wgen.AbsFloat:
 			if t.S == wgen.F32 {
-				return Value{T: t, B: math.Float32bits(float32(v.F))}
+				f := float32(v.F)
+				if math.IsInf(float64(f), 0) && !math.IsInf(v.F, 0) {
+					m.ev.NotRepresentable++
+				}
+				return Value{T: t, B: math.Float32bits(f)}
 			}
 		}
 		return v
@@ -204,7 +214,7 @@ func convertTo(v Value, t *wgen.Type) Value {
 			case wgen.TStruct:
 				et = t.St.Members[i].T
 			}
-			out.E[i] = convertTo(v.E[i], et)
+			out.E[i] = m.convertTo(v.E[i], et)
 		}
 		return out
 	}
@@ -287,13 +297,13 @@ func (m *machine) binary(op string, a, b Value, rt *wgen.Type) Value {
 	// unify abstract operands with the concrete side
 	if a.T.K != wgen.TMat && b.T.K != wgen.TMat && a.T.S != b.T.S && op != "<<" && op != ">>" {
 		if a.T.S.IsAbstract() && !b.T.S.IsAbstract() {
-			a = convertTo(a, a.T.WithKind(b.T.S))
+			a = m.convertTo(a, a.T.WithKind(b.T.S))
 		} else if b.T.S.IsAbstract() && !a.T.S.IsAbstract() {
-			b = convertTo(b, b.T.WithKind(a.T.S))
+			b = m.convertTo(b, b.T.WithKind(a.T.S))
 		} else if a.T.S == wgen.AbsInt && b.T.S == wgen.AbsFloat {
-			a = convertTo(a, a.T.WithKind(wgen.AbsFloat))
+			a = m.convertTo(a, a.T.WithKind(wgen.AbsFloat))
 		} else if b.T.S == wgen.AbsInt && a.T.S == wgen.AbsFloat {
-			b = convertTo(b, b.T.WithKind(wgen.AbsFloat))
+			b = m.convertTo(b, b.T.WithKind(wgen.AbsFloat))
 		}
 	}
 	if a.T.K == wgen.TMat || b.T.K == wgen.TMat {
@@ -465,7 +475,15 @@ func (m *machine) scalarBinary(op string, a, b Value) Value {
 			// WGSL: 2.5 ULP for |y| in [2^-126, 2^126]: never bit-determined
 			return m.fres(x/y, true)
 		case "%":
-			return m.fres(math.Mod(x, y), true)
+			// WGSL: accuracy inherited from x - y*trunc(x/y); when the quotient is
+			// large that formula is far from the exact remainder and nothing can be compared
+			exact := math.Mod(x, y)
+			q := float32(x) / float32(y)
+			formula := float64(float32(x) - float32(y)*float32(math.Trunc(float64(q))))
+			if math.Abs(formula-exact) > 1e-4*math.Abs(y) {
+				m.ev.Imprecise++
+			}
+			return m.fres(exact, true)
 		}
 		if isCmp(op) {
 			if fz {
@@ -490,19 +508,40 @@ func (m *machine) scalarBinary(op string, a, b Value) Value {
 		x, y := a.I, b.I
 		switch op {
 		case "+":
-			return Value{I: x + y}
+			r := x + y
+			if (x > 0 && y > 0 && r < 0) || (x < 0 && y < 0 && r >= 0) {
+				m.ev.AbsOverflow++
+			}
+			return Value{I: r}
 		case "-":
-			return Value{I: x - y}
+			r := x - y
+			if (x >= 0 && y < 0 && r < 0) || (x < 0 && y > 0 && r >= 0) {
+				m.ev.AbsOverflow++
+			}
+			return Value{I: r}
 		case "*":
-			return Value{I: x * y}
+			r := x * y
+			if x != 0 && (r/x != y || (x == -1 && y == math.MinInt64)) {
+				m.ev.AbsOverflow++
+			}
+			return Value{I: r}
 		case "/":
 			if y == 0 {
-				m.fail(fmt.Errorf("wref: const division by zero"))
+				m.ev.DivZero++
+				return Value{I: 0}
+			}
+			if x == math.MinInt64 && y == -1 {
+				m.ev.AbsOverflow++
+				return Value{I: x}
 			}
 			return Value{I: x / y}
 		case "%":
 			if y == 0 {
-				m.fail(fmt.Errorf("wref: const division by zero"))
+				m.ev.DivZero++
+				return Value{I: 0}
+			}
+			if y == -1 {
+				return Value{I: 0}
 			}
 			return Value{I: x % y}
 		case "&":
@@ -558,7 +597,7 @@ func (m *machine) shift(op string, a, b Value) Value {
 	if b.T.S == wgen.AbsInt {
 		n = uint32(b.I)
 	}
-	if n >= 32 {
+	if n >= 32 && a.T.S != wgen.AbsInt {
 		m.ev.ShiftWide++
 	}
 	n &= 31
@@ -580,10 +619,23 @@ func (m *machine) shift(op string, a, b Value) Value {
 		}
 		return Value{B: a.B >> n}
 	case wgen.AbsInt:
-		if op == "<<" {
-			return Value{I: a.I << n}
+		// abstract shifts are not reduced modulo 32
+		big := b.B
+		if b.T.S == wgen.AbsInt {
+			big = uint32(b.I)
 		}
-		return Value{I: a.I >> n}
+		if big >= 63 {
+			m.ev.AbsOverflow++
+			big = 62
+		}
+		if op == "<<" {
+			r := a.I << big
+			if r>>big != a.I {
+				m.ev.AbsOverflow++
+			}
+			return Value{I: r}
+		}
+		return Value{I: a.I >> big}
 	}
 	m.fail(fmt.Errorf("wref: shift on %s", a.T))
 	return Value{}
@@ -729,7 +781,7 @@ func (m *machine) construct(x *wgen.Construct) Value {
 		return out
 	case wgen.TMat:
 		if len(args) == 1 && args[0].T.K == wgen.TMat {
-			return convertTo(args[0], t)
+			return m.convertTo(args[0], t)
 		}
 		var flat []Value
 		for _, a := range args {
@@ -750,13 +802,13 @@ func (m *machine) construct(x *wgen.Construct) Value {
 	case wgen.TArray:
 		out := Value{T: t, E: make([]Value, len(args))}
 		for i := range args {
-			out.E[i] = convertTo(args[i], t.Elem)
+			out.E[i] = m.convertTo(args[i], t.Elem)
 		}
 		return out
 	case wgen.TStruct:
 		out := Value{T: t, E: make([]Value, len(args))}
 		for i := range args {
-			out.E[i] = convertTo(args[i], t.St.Members[i].T)
+			out.E[i] = m.convertTo(args[i], t.St.Members[i].T)
 		}
 		return out
 	}
@@ -771,8 +823,13 @@ func (m *machine) convScalar(v Value, k wgen.Kind) Value {
 		v.T = t
 		return v
 	}
-	if v.T.S.IsAbstract() {
-		return convertTo(v, t)
+	if v.T.S == wgen.AbsFloat && k != wgen.F32 {
+		// abstract-float concretises to f32 before a conversion to another kind
+		v = m.convertTo(v, wgen.TF32)
+	} else if v.T.S == wgen.AbsInt && k == wgen.Bool {
+		return BoolV(v.I != 0)
+	} else if v.T.S.IsAbstract() {
+		return m.convertTo(v, t)
 	}
 	m.op("convert")
 	src := v.T.S
